@@ -20,7 +20,7 @@ RULE = ('caches (and FanoutCache shards) holding inline, binary-file, text-file 
 DISTINCT = ('damage_cases',)
 REQUIRED = ('spelling_relative', 'spelling_dotdot', 'single_damage_cases', 'combined_damage_cases', 'fanout_cases', 'plain_checks_compared', 'fix_then_clean',
             'items_read_after_fix', 'kinds_deleted', 'kinds_truncated', 'kinds_extended', 'kinds_unknown', 'kinds_emptydir',
-            'kinds_count', 'kinds_size', 'checks_refused_under_a_held_lock', 'journal_mode_wal', 'journal_mode_truncate', 'journal_mode_persist', 'journal_mode_delete')
+            'kinds_count', 'kinds_size', 'checks_refused_under_a_held_lock', 'writes_completed_right_before_the_lock_of_check', 'journal_mode_wal', 'journal_mode_truncate', 'journal_mode_persist', 'journal_mode_delete')
 ASSUMPTIONS = ('a repair may legitimately add "empty directory" warnings for directories it has just emptied',)
 
 T = 64
@@ -317,6 +317,87 @@ def _case(dc, sc, res, rng, kinds, fanout, label, spelling):
             os.rmdir(real_d + '-side')
 
 
+def check_beside_a_writer(dc, sc, res, rng, label):
+    """No damage at all: another client completes one whole operation (create, replace or remove a file-backed item)
+    right before check() takes its write lock.  check() must report nothing and check(fix=True) must leave every item
+    as it is (what check compares - rows and files - is read under the lock)."""
+    from ..sched import Recorder, Sched
+    d = sc.new()
+    clock = probe.set_clock(probe.VClock())
+    cache = dc.Cache(d, disk_min_file_size=T, timeout=0)
+    big = lambda t: (t + ';') * 40     # noqa: E731
+    want = {'a': big('a0'), 'b': big('b0'), 'c': 'inline'}
+    for k, v in want.items():
+        cache.set(k, v)
+    checker = dc.Cache(d, timeout=0)
+    writer = dc.Cache(d, timeout=0)
+    fix = rng.random() < 0.6
+    what = rng.choice(['replace', 'create', 'delete', 'push'])
+    sch = Sched(rng, clock, strategy='chase', victims=[0], chase_label='pre:BEGIN')
+    rec = Recorder(sch)
+    out = {}
+
+    def run_check():
+        out['warnings'] = observed_warnings(dc, checker.check(fix=fix, retry=True))
+
+    def run_write():
+        if what == 'replace':
+            writer.set('a', big('a1'), retry=True)
+            want['a'] = big('a1')
+        elif what == 'create':
+            writer.set('new', big('n0'), retry=True)
+            want['new'] = big('n0')
+        elif what == 'delete':
+            writer.delete('b', retry=True)
+            want.pop('b')
+        else:
+            want[writer.push(big('q0'), prefix='q', retry=True)] = big('q0')
+    try:
+        ok = sch.run([lambda: rec.call(0, 'check', (fix,), run_check), lambda: rec.call(1, what, (), run_write)])
+        probe.set_controller(None)
+        wit = {'label': label, 'fix': fix, 'other_client': what, 'writer_ran_in_front_of_the_lock': sch.chases,
+               'trace_head': sch.trace[:40]}
+        errs = sch.errors()
+        chk = [o for o in rec.ops if o['op'] == 'check'][0]
+        if not errs and ok and chk['kind'] == 'raise' and chk['result'] in ('OperationalError', 'Timeout') \
+                and all(o['kind'] == 'ok' for o in rec.ops if o is not chk):
+            res.count('checks_beside_a_writer_refused')       # e.g. the VACUUM of check(fix=True) is not retried: it says so
+            return
+        if errs or not ok or any(o['kind'] != 'ok' for o in rec.ops):
+            res.violation('check() beside a writer did not complete: %s' % (
+                errs[0][1][1][-300:] if errs else [(o['op'], o['kind'], o['result']) for o in rec.ops]), wit)
+            return
+        res.count('evaluations')
+        res.count('checks_beside_a_writer')
+        if sch.chases:
+            res.count('writes_completed_right_before_the_lock_of_check')
+        if out['warnings']:
+            res.violation('check(fix=%s) on an undamaged cache reported %r after another client\'s %s' % (
+                fix, [(a, os.path.relpath(b, d) if b else None) for a, b in out['warnings']][:4], what), wit)
+            return
+        fresh = dc.Cache(d)
+        try:
+            got = {k: fresh.get(k) for k in fresh}
+            if got != want:
+                res.violation('after check(fix=%s) beside a writer the contents are %r, expected %r' % (
+                    fix, sorted((k, (v or '')[:8]) for k, v in got.items()), sorted((k, v[:8]) for k, v in want.items())), wit)
+                return
+            again = observed_warnings(dc, fresh.check())
+            if again:
+                res.violation('a check afterwards reports %r' % (again[:3],), wit)
+        finally:
+            fresh.close()
+    finally:
+        probe.set_controller(None)
+        probe.set_clock(None)
+        for c in (cache, checker, writer):
+            try:
+                c.close()
+            except Exception:      # noqa: BLE001
+                pass
+        sc.drop(d)
+
+
 def run_shard(tier, seed, shard, nshards, res):
     dc = common.use_repo()
     probe.install()
@@ -338,5 +419,11 @@ def run_shard(tier, seed, shard, nshards, res):
             kinds = [gen.pick(rng, KINDS) for _ in range(rng.randrange(2, 6))]
             case(dc, sc, res, rng, kinds, rng.random() < 0.3, 'c17 combo seed=%d shard=%d i=%d' % (seed, shard, i))
             res.count('combined_damage_cases')
+            if res.counters.get('violations_raw', 0) > 10:
+                return
+        probe.install()
+        for i in range(12 if tier == 'quick' else 150):
+            rng = common.rng_for(seed, 'c17w', shard, i)
+            check_beside_a_writer(dc, sc, res, rng, 'c17 check beside a writer seed=%d shard=%d i=%d' % (seed, shard, i))
             if res.counters.get('violations_raw', 0) > 10:
                 return
